@@ -4,7 +4,7 @@ S=$1; shift
 rm -rf /var/tmp/kdev/xrun_m; cp -r /verif/xrun /var/tmp/kdev/xrun_m; sed -i 's|"/repo/|"/var/tmp/mut/|' /var/tmp/kdev/xrun_m/Cargo.toml; cp /repo/Cargo.lock /var/tmp/kdev/xrun_m/
 for P in "$@"; do
   cd /var/tmp/mut && git checkout -q -- . && git clean -fdq crates && git apply $P || { echo "PATCH FAILED $P"; continue; }
-  cd /var/tmp/kdev/xrun_m; CARGO_NET_OFFLINE=true CARGO_TARGET_DIR=/var/tmp/verif-cache/xrun-target-m cargo build --offline 2>&1 | grep -E "^error" -A6 | head -20
-  echo "== $P"; /var/tmp/verif-cache/xrun-target-m/debug/verif-xrun $S ${XTIER:+--tier $XTIER} | cut -c1-${XW:-420} | tail -${XN:-2}
+  cd /var/tmp/kdev/xrun_m; CARGO_NET_OFFLINE=true CARGO_TARGET_DIR=/var/tmp/verif-cache-dev/xrun-target-m cargo build --offline 2>&1 | grep -E "^error" -A6 | head -20
+  echo "== $P"; /var/tmp/verif-cache-dev/xrun-target-m/debug/verif-xrun $S ${XTIER:+--tier $XTIER} | cut -c1-${XW:-420} | tail -${XN:-2}
 done
 cd /var/tmp/mut && git checkout -q -- . && git clean -fdq crates
